@@ -107,7 +107,15 @@ pub(crate) fn slot_of_fd(fd: i32) -> usize {
     s
 }
 
+/// When set, every File maps to this ghost slot. A `File` normally sits behind
+/// an `Arc`, and an fd read back from heap memory is not a constant for
+/// symbolic execution; single-file harnesses pin the slot instead.
+pub(crate) static mut FORCE_SLOT: Option<usize> = None;
+
 pub(crate) fn slot_of_file(f: &File) -> usize {
+    if let Some(s) = unsafe { FORCE_SLOT } {
+        return s;
+    }
     slot_of_fd(f.as_raw_fd())
 }
 
